@@ -912,6 +912,7 @@ def oracle_c18(world, result):
         return _crashed(result), P, "strict"
     steps, hist, le = result["steps"], result["history"], result["loss_events"]
     P["fault_rows"] = len(result.get("fault_rows", []))
+    P["prelude_sibling_used"] = int(bool(result.get("prelude_used")))
     P["init_perturbed"] = int(bool(world.get("init_perturb")))
     P["fault_row_batches"] = result.get("fault_rows_seen", 0)
     # pair each UPDATE with the LOSS event immediately before it (the gradient call)
